@@ -65,7 +65,7 @@ def plan(tier, seed):
     # universe (vmon/explore.py)
     from .. import explore
     specs += explore.specs_for(ID, tier, seed, ['II', 'OO'],
-                               ['II', 'OO', 'fs', 'QQ', 'LF'], u_quick=5,
+                               ['II', 'OO', 'fs', 'QQ'], u_quick=5,
                                u_thorough=6)
     return specs
 
